@@ -299,3 +299,11 @@ Theorem C19_settings_explicit_annealing_count :
                /\ forall k, ~ In k (Settings.keys kk) -> Settings.dget mm k = Settings.dget dd k.
 Proof. exact SettingsProofs.explicit_annealing_count. Qed.
 Print Assumptions C19_settings_explicit_annealing_count.
+
+(** The temperature in force after iteration k is a function of the resolved configuration and of k alone: two runs of
+    different lengths under the same configuration agree on every iteration they share (no dependence on the history to come). *)
+Theorem C19_run_length_irrelevant : forall c n n' l l',
+  run_anneal c n = Ok l -> run_anneal c n' = Ok l' ->
+  forall k, (k <= n)%nat -> (k <= n')%nat -> nth_error l k = nth_error l' k.
+Proof. exact run_anneal_length_irrelevant. Qed.
+Print Assumptions C19_run_length_irrelevant.
